@@ -21,6 +21,10 @@ O = ("O", None, None)
 N = ("N", None, None)
 CL = ("Cl", None, None)
 C13RAD = ("C", 13, 2)
+NO256 = ("No", 256, None)
+LR = ("Lr", None, None)
+MD256 = ("Md", 256, None)
+NO = ("No", None, None)
 SIGMA6 = (C, H, D, C13, CRAD, O)
 SIGMA4 = (C, H, C13, CRAD)
 SIGMA3 = (C, C13, CRAD)
